@@ -38,6 +38,7 @@ const preludeStr = `; --- govc prelude: strings as an abstract sort with length/
 (assert (forall ((a Str) (lo Int) (hi Int) (i Int)) (! (=> (and (<= 0 lo) (<= lo hi) (<= hi (gs.len a)) (<= 0 i) (< i (- hi lo))) (= (gs.at (gs.sub a lo hi) i) (gs.at a (+ lo i)))) :pattern ((gs.at (gs.sub a lo hi) i)))))
 (assert (forall ((c Int)) (! (= (gs.len (gs.chr c)) 1) :pattern ((gs.chr c)))))
 (assert (forall ((c Int)) (! (=> (and (<= 0 c) (< c 256)) (= (gs.at (gs.chr c) 0) c)) :pattern ((gs.chr c)))))
+(assert (forall ((a Str) (lo Int) (k Int)) (! (=> (and (<= 0 lo) (<= lo k) (< k (gs.len a))) (= (gs.cat (gs.sub a lo k) (gs.chr (gs.at a k))) (gs.sub a lo (+ k 1)))) :pattern ((gs.cat (gs.sub a lo k) (gs.chr (gs.at a k)))))))
 (define-fun gs.same ((a Str) (b Str)) Bool (and (= (gs.len a) (gs.len b)) (forall ((i Int)) (! (=> (and (<= 0 i) (< i (gs.len a))) (= (gs.at a i) (gs.at b i))) :pattern ((gs.at a i)) :pattern ((gs.at b i))))))
 (declare-fun gs.eq (Str Str) Bool)
 (assert (forall ((a Str) (b Str)) (! (and (= (gs.eq a b) (= a b)) (= (gs.eq a b) (gs.same a b))) :pattern ((gs.eq a b)))))
